@@ -14,7 +14,7 @@ EXPLANATION = (
     "secret pushed last; (R4) recovery refuses iff fewer than `threshold` distinct points (C01.R4 rules re-run "
     "here); (R5) the MAC gate and threshold binding of C05; (R6) the dealt secret is K||0^16 with K a PRF output of "
     "the transcript that absorbed (A, M, R), and the coefficient generator is the continuation of that same "
-    "transcript.  NOT decided: information-theoretic secrecy of Shamir sharing, non-zero / pairwise distinct "
+    "transcript; (R7) a randomly placed share is evaluated only at a point proven non-zero (x = 0 would be the key itself).  NOT decided: information-theoretic secrecy of Shamir sharing, non-zero / pairwise distinct "
     "coefficients (probabilistic), MAC unforgeability.")
 ASSUMPTIONS = ["Strobe outputs and Shamir evaluations of degree >= 1 are treated as one-way for the clear-text rule"]
 TRUSTED = []
@@ -143,7 +143,26 @@ def run(ctx):
     ctx.add("C02.R2", root + "#element-absorbs-counter", okc,
             "each derived value must be a PRF output keyed by the client randomness that absorbs its own index: %s" % det, at,
             sample=det)
-    ctx.floor("C02.R2", 2)
+    # the two client APIs (Message::generate, share_with_local_randomness) assign the same element to the same role
+    sib = {}
+    for root2 in ("sta_rs::Message::generate", "sta_rs::MessageGenerator::share_with_local_randomness"):
+        e2, r2, _, _ = ctx.root(root2)
+        cn2 = Q.calls(e2, "adss::Commune::new")
+        dk2 = Q.calls(e2, "sta_rs::derive_ske_key")
+        ok2 = ok_variant(r2, 0)
+        tg = None
+        if ok2 is not None and ok2[2][0].op == "agg":
+            adt = "sta_rs::Message" if root2.endswith("generate") else "sta_rs::WASMSharingMaterial"
+            tg = ok2[2][0].args[1 + fidx(ctx, adt, "tag")]
+        def ix(t):
+            return t.args[1].args[0] if t is not None and t.op == "index" and t.args[1].op == "int" else None
+        sib[root2] = (ix(cn2[0]["argv"][1]) if cn2 else None, ix(cn2[0]["argv"][2]) if cn2 else None,
+                      ix(dk2[0]["argv"][0]) if dk2 else None, ix(tg))
+    vals = list(sib.values())
+    ctx.add("C02.R2", "generate~share_with_local_randomness#same-roles", len(vals) == 2 and vals[0] == vals[1] and None not in vals[0],
+            "both client APIs must use the same derived element for (ADSS message, coins, key seed, tag); found %s - otherwise one "
+            "API publishes as tag what the other uses as secret" % sib, at, sample={k.split("::")[-1]: v for k, v in sib.items()})
+    ctx.floor("C02.R2", 3)
 
     # ---- R3 coefficient freshness and count ---------------------------------------------------------------
     poly_rules(ctx, "C02.R3")
@@ -168,6 +187,11 @@ def run(ctx):
             "the verified transcript must absorb the full 4-byte threshold (a forged smaller threshold must change the MAC input)",
             ctx.fn("adss::Commune::verify").loc)
     ctx.floor("C02.R5", 3)
+
+    # ---- R7 a share is never dealt at x = 0 (it would carry the sharing key in the clear) = C06.R3 for gen ----
+    from .c06 import gen_nonzero
+    gen_nonzero(ctx, "C02.R7")
+    ctx.floor("C02.R7", 1)
 
     # ---- R6 secret and coin provenance --------------------------------------------------------------------
     engs, rets, _, _ = ctx.root("adss::Commune::share")
